@@ -806,6 +806,38 @@ func checkSizeBeforeV1Marshal(r *core.Result, prog *core.Program, root *packages
 			obj := info.Uses[recv]
 			n++
 			sized := false
+			// hasSize: nd evaluates obj.XXX_Size() unconditionally (not inside a function literal or on the right of && / ||)
+			hasSize := func(nd ast.Node) bool {
+				found := false
+				ast.Inspect(nd, func(x ast.Node) bool {
+					switch x := x.(type) {
+					case *ast.FuncLit:
+						return false
+					case *ast.BinaryExpr:
+						if x.Op == token.LAND || x.Op == token.LOR {
+							ast.Inspect(x.X, func(y ast.Node) bool {
+								if c, ok := y.(*ast.CallExpr); ok {
+									if se2, ok := c.Fun.(*ast.SelectorExpr); ok && se2.Sel.Name == "XXX_Size" {
+										if id, ok := se2.X.(*ast.Ident); ok && info.Uses[id] == obj && obj != nil {
+											found = true
+										}
+									}
+								}
+								return true
+							})
+							return false
+						}
+					case *ast.CallExpr:
+						if se2, ok := x.Fun.(*ast.SelectorExpr); ok && se2.Sel.Name == "XXX_Size" {
+							if id, ok := se2.X.(*ast.Ident); ok && info.Uses[id] == obj && obj != nil {
+								found = true
+							}
+						}
+					}
+					return true
+				})
+				return found
+			}
 			// walk the enclosing blocks from the inside out
 			for i := len(stack) - 1; i > 0 && !sized; i-- {
 				var list []ast.Stmt
@@ -821,22 +853,18 @@ func checkSizeBeforeV1Marshal(r *core.Result, prog *core.Program, root *packages
 					if s.End() > stack[i].Pos() {
 						break
 					}
-					var e ast.Expr
-					switch s := s.(type) {
-					case *ast.ExprStmt:
-						e = s.X
-					case *ast.AssignStmt:
-						if len(s.Rhs) == 1 {
-							e = s.Rhs[0]
+					switch s.(type) {
+					case *ast.ExprStmt, *ast.AssignStmt, *ast.DeclStmt:
+						if hasSize(s) {
+							sized = true
 						}
 					}
-					if c, ok := e.(*ast.CallExpr); ok {
-						if se2, ok := c.Fun.(*ast.SelectorExpr); ok && se2.Sel.Name == "XXX_Size" {
-							if id, ok := se2.X.(*ast.Ident); ok && info.Uses[id] == obj && obj != nil {
-								sized = true
-							}
-						}
-					}
+				}
+			}
+			// the arguments of the call are evaluated before it
+			for _, a := range call.Args {
+				if hasSize(a) {
+					sized = true
 				}
 			}
 			r.Ob("D13", f.Name+" :: "+types.ExprString(se)+" runs after "+recv.Name+".XXX_Size()", prog.Pos(call.Pos()), sized,
